@@ -94,6 +94,22 @@ def generate(rng, tier):
             lines.append('gb.set %d 1 2 3 4 5 0 6 7 57343 49152' % i)
         lines += ['gb.conc %d %d' % (nI, 12 if tier == 'quick' else 40)] + ['gb.serial %d' % i for i in range(nI)] + obs_all(nI)
         cases.append(('parser%d' % rep, lines))
+    # machines with the audio output attached: each has its own sample stream; shutting one down leaves the other running
+    for rep in range(2 if tier == 'quick' else 8):
+        lines = ['gb.newloop 0 0 0 0 1 0', 'gb.newloop 1 0 0 0 1 0', 'gb.newloop 2 0 0 0 0 0']
+        for i in (0, 1):
+            lines += ['gb.w %d 65318 128' % i, 'gb.w %d 65316 119' % i, 'gb.w %d 65317 255' % i, 'gb.w %d 65298 %d' % (i, 0xf3 - 0x30 * i),
+                      'gb.w %d 65299 %d' % (i, rng.randrange(256)), 'gb.w %d 65300 %d' % (i, 0x80 | rng.randrange(8))]
+        lines += ['gb.frames 0 2', 'gb.audio 0', 'gb.audio 1', 'gb.frames 1 1', 'gb.audio 1', 'gb.audio 0', 'gb.obs 0', 'gb.obs 1',
+                  'gb.runcancel 0 3', 'gb.frames 1 2', 'gb.audio 1', 'gb.obs 1', 'gb.obs 2']
+        cases.append(('snd%d' % rep, lines))
+    # a machine created with the debugging picture next to ordinary ones (it is only stepped, never observed)
+    import random as _r
+    for rep in range(2 if tier == 'quick' else 8):
+        lines = ['gb.newloop 0 0 0 0 0 0 1 1', 'gb.newloop 1 0 0 0', 'gb.frames 0 1'] + sysgen.scene_lines(_r.Random(rng.randrange(1 << 30)), 1)
+        lines += ['gb.frames 1 2', 'gb.pix 1', 'gb.frames 0 1', 'gb.newloop 2 0 0 0'] + sysgen.scene_lines(_r.Random(rng.randrange(1 << 30)), 2)
+        lines += ['gb.frames 2 2', 'gb.pix 2', 'gb.obs 1', 'gb.obs 2']
+        cases.append(('dbg%d' % rep, lines))
     # external RAM of cartridges that declare none / some: written on one instance, read on the others
     nram = 0
     for typ, ramc in [(0x01, 0), (0x00, 0), (0x11, 0), (0x19, 0), (0x03, 2), (0x13, 3), (0x1b, 2), (0x06, 0)]:
